@@ -37,6 +37,8 @@ CONSTANTS
     MaxPerTurn,  \* 1: one fault per turn; 2: also the listed same-turn pairs
     MaxFaults,   \* faults per behaviour (tree mode; 99 = unbounded)
     MaxCur,      \* bound on cursors minted (bounds exchange turns and retried producer turns)
+    OpenFaults,  \* may the init turn be damaged (FALSE for seeded walks, which would otherwise
+                 \* mostly consist of failed opens)
     RequireEOS,  \* TRUE: a response stream must end with the Arrow end-of-stream marker
                  \*       (proposed fix); FALSE: physical EOF at a message boundary is a clean end
                  \*       (code as pinned)
@@ -191,7 +193,13 @@ OpenExit(R, E, F, k) ==
     ELSE "ok"
 
 --------------------------------------------------------------------------
-RecordStep(step) ==
+\* cls: class of the step for finding signatures (init failure / cut at a message boundary)
+ClassOf(step) ==
+    IF "sc" \in DOMAIN step.args /\ step.args.sc.initerr THEN "initerr"
+    ELSE IF "trunc_msg" \in step.args.f THEN "trunc_msg"
+    ELSE IF step.args.f # {} THEN "fault" ELSE "plain"
+RecordStep(st) ==
+    LET step == st @@ [cls |-> ClassOf(st)] IN
     /\ hist' = IF Mode = "mc" THEN <<step>> ELSE Append(hist, step)
     /\ (Mode = "edges") => EmitTrace(hist')
     /\ (Mode = "tree" /\ Len(hist') = Depth) => EmitTrace(hist')
@@ -228,7 +236,9 @@ CallUnary(term, decl, F) ==
 (* OpenProducer / OpenExchange: post, parse the output stream, trailing     *)
 (* bytes, exchange-only checks, error header; then the stream object.       *)
 Open(k, s, F) ==
-    /\ Budget /\ kind = "none" /\ k \in Kinds
+    /\ Budget /\ k \in Kinds
+    /\ kind = "none" \/ (Mode = "tree" /\ kind = "dead")     \* (walks go on after a failed open)
+    /\ OpenFaults \/ F = {}
     /\ sc' = s
     /\ LET R == InitTurn(s, k) IN
        /\ Applicable(F, R, k)
@@ -377,12 +387,15 @@ Close ==
     /\ UNCHANGED <<kind, sc, tok, fin, cur, posted, deliv, amb, cancelled, ended, nf>>
 
 --------------------------------------------------------------------------
+\* producer: n data batches, then the script finishes or fails; exchange: n good turns, then the
+\* script fails (term = "error") or never does; a failing init handler makes the rest irrelevant
 Scripts(k) ==
     IF k = "prod"
-    THEN {[n |-> n, term |-> t, lim |-> l, initerr |-> e] :
-              n \in 0..MaxN, t \in {"finish", "error"}, l \in Limits, e \in InitErrs}
-    ELSE {[n |-> n, term |-> "error", lim |-> 0, initerr |-> e] : n \in 0..MaxN, e \in InitErrs}
-         \cup {[n |-> 0, term |-> "finish", lim |-> 0, initerr |-> FALSE]}
+    THEN {[n |-> n, term |-> t, lim |-> l, initerr |-> FALSE] :
+              n \in 0..MaxN, t \in {"finish", "error"}, l \in Limits}
+         \cup {[n |-> 0, term |-> "finish", lim |-> l, initerr |-> e] : l \in Limits, e \in InitErrs \ {FALSE}}
+    ELSE {[n |-> n, term |-> "error", lim |-> 0, initerr |-> FALSE] : n \in 0..MaxN}
+         \cup {[n |-> 0, term |-> "finish", lim |-> 0, initerr |-> e] : e \in InitErrs}
 
 Init ==
     /\ kind = "none" /\ sc = NoScript
